@@ -257,3 +257,235 @@ pub proof fn lemma_push_step(a: ModuleEntryIterator, b: ModuleEntryIterator, s: 
 }
 
 } // verus!
+verus! {
+
+/// taking the head of the queue
+pub proof fn lemma_pop_step(a: ModuleEntryIterator, b: ModuleEntryIterator, p: &Url)
+    requires
+        wf(a), same_config(a, b), a.visiting@.len() > 0, p == a.visiting@[0],
+        b.visiting@ == a.visiting@.subrange(1, a.visiting@.len() as int), b.seen@ == a.seen@,
+    ensures
+        wf(b), done(b, *p), queued(a, *p),
+        forall|t: Url| t != *p ==> (queued(b, t) <==> queued(a, t)),
+        forall|t: Url| seen(b, t) <==> seen(a, t),
+{
+    let v = a.visiting@;
+    let w = b.visiting@;
+    assert forall|i: int| 0 <= i < w.len() implies #[trigger] w[i] == v[i + 1] by {}
+    assert forall|i: int| 0 <= i < w.len() implies b.seen@.contains(#[trigger] w[i]) by { assert(w[i] == v[i + 1]); }
+    assert forall|i: int, j: int| 0 <= i < j < w.len() implies *w[i] != *w[j] by { assert(w[i] == v[i + 1]); assert(w[j] == v[j + 1]); }
+    assert(a.seen@.contains(v[0]));
+    if queued(b, *p) {
+        let i = choose|i: int| 0 <= i < w.len() && *(#[trigger] w[i]) == *p;
+        assert(w[i] == v[i + 1]);
+    }
+    assert forall|t: Url| t != *p implies (queued(b, t) <==> queued(a, t)) by {
+        if queued(b, t) { let i = choose|i: int| 0 <= i < w.len() && *(#[trigger] w[i]) == t; assert(*v[i + 1] == t); }
+        if queued(a, t) { let i = choose|i: int| 0 <= i < v.len() && *(#[trigger] v[i]) == t; assert(i > 0); assert(*w[i - 1] == t); }
+    }
+}
+
+} // verus!
+verus! {
+
+/// the first phase of `next()`: the previously yielded entry (if any) is expanded
+pub open spec fn expanded(a: ModuleEntryIterator, st1: ModuleEntryIterator) -> bool {
+    let o = opts_of(a);
+    &&& wf(st1) && same_config(a, st1) && st1.previous_module is None
+    &&& forall|t: Url| seen(st1, t) <==> (seen(a, t) || expands_to(o, opt_entry_val(a.previous_module), t))
+    &&& forall|t: Url| queued(st1, t) <==> (queued(a, t) || (seen(st1, t) && !seen(a, t)))
+}
+/// one iteration of the queue loop: `p` is taken from the queue, its types dependency is pushed
+pub open spec fn step(g: ModuleGraph, o: WOpts, s0: ModuleEntryIterator, cur: ModuleEntryIterator, p: Url) -> bool {
+    &&& wf(s0) && wf(cur) && same_config(s0, cur)
+    &&& queued(s0, p) && done(cur, p)
+    &&& forall|t: Url| seen(cur, t) <==> (seen(s0, t) || on_pop(g, o, p, t))
+    &&& forall|t: Url| t != p ==> (queued(cur, t) <==> (queued(s0, t) || (seen(cur, t) && !seen(s0, t))))
+}
+/// loop invariant of the queue loop, relative to the state `st1` it started from
+pub open spec fn loop_inv(g: ModuleGraph, o: WOpts, st1: ModuleEntryIterator, cur: ModuleEntryIterator) -> bool {
+    &&& wf(cur) && same_config(st1, cur)
+    &&& forall|t: Url| seen(cur, t) <==> (seen(st1, t) || exists|p: Url| done(cur, p) && !done(st1, p) && #[trigger] on_pop(g, o, p, t))
+    &&& forall|t: Url| queued(cur, t) ==> (queued(st1, t) || (seen(cur, t) && !seen(st1, t)))
+    &&& forall|t: Url| done(st1, t) ==> done(cur, t)
+    &&& forall|p: Url| done(cur, p) && !done(st1, p) ==> !#[trigger] yields(g, o, p)
+}
+
+pub proof fn lemma_loop_init(g: ModuleGraph, o: WOpts, st1: ModuleEntryIterator)
+    requires wf(st1),
+    ensures loop_inv(g, o, st1, st1),
+{
+}
+
+pub proof fn lemma_loop_step(g: ModuleGraph, o: WOpts, st1: ModuleEntryIterator, s0: ModuleEntryIterator, cur: ModuleEntryIterator, p: Url)
+    requires loop_inv(g, o, st1, s0), step(g, o, s0, cur, p), !yields(g, o, p),
+    ensures loop_inv(g, o, st1, cur),
+{
+    assert(!done(st1, p)) by {
+        if done(st1, p) { assert(done(s0, p)); }
+    }
+    assert forall|t: Url| seen(cur, t) <==> (seen(st1, t) || exists|q: Url| done(cur, q) && !done(st1, q) && #[trigger] on_pop(g, o, q, t)) by {
+        if seen(cur, t) {
+            if seen(s0, t) {
+                if !seen(st1, t) {
+                    let q = choose|q: Url| done(s0, q) && !done(st1, q) && #[trigger] on_pop(g, o, q, t);
+                    assert(done(cur, q)) by { lemma_done_mono(g, o, s0, cur, p, q); }
+                }
+            } else {
+                assert(on_pop(g, o, p, t));
+            }
+        }
+        if exists|q: Url| done(cur, q) && !done(st1, q) && #[trigger] on_pop(g, o, q, t) {
+            let q = choose|q: Url| done(cur, q) && !done(st1, q) && #[trigger] on_pop(g, o, q, t);
+            if q == p { } else {
+                assert(done(s0, q)) by { lemma_done_back(g, o, s0, cur, p, q); }
+            }
+        }
+    }
+    assert forall|t: Url| queued(cur, t) implies (queued(st1, t) || (seen(cur, t) && !seen(st1, t))) by {
+        assert(t != p);
+        if queued(s0, t) { } else { assert(seen(cur, t) && !seen(s0, t)); }
+    }
+    assert forall|t: Url| done(st1, t) implies done(cur, t) by {
+        assert(done(s0, t));
+        lemma_done_mono(g, o, s0, cur, p, t);
+    }
+    assert forall|q: Url| done(cur, q) && !done(st1, q) implies !#[trigger] yields(g, o, q) by {
+        if q != p { lemma_done_back(g, o, s0, cur, p, q); }
+    }
+}
+pub proof fn lemma_done_mono(g: ModuleGraph, o: WOpts, s0: ModuleEntryIterator, cur: ModuleEntryIterator, p: Url, q: Url)
+    requires step(g, o, s0, cur, p), done(s0, q),
+    ensures done(cur, q),
+{
+    assert(q != p);
+}
+pub proof fn lemma_done_back(g: ModuleGraph, o: WOpts, s0: ModuleEntryIterator, cur: ModuleEntryIterator, p: Url, q: Url)
+    requires step(g, o, s0, cur, p), done(cur, q), q != p,
+    ensures done(s0, q),
+{
+    if !seen(s0, q) { assert(queued(cur, q)); }
+}
+
+/// `done` relative to the state before the expansion phase
+pub proof fn lemma_expanded_done(a: ModuleEntryIterator, st1: ModuleEntryIterator, p: Url)
+    requires wf(a), expanded(a, st1),
+    ensures done(st1, p) <==> done(a, p),
+{
+    if done(a, p) { assert(!queued(st1, p)); }
+    if done(st1, p) {
+        if !seen(a, p) { assert(queued(st1, p)); }
+    }
+}
+
+pub proof fn lemma_finish_none(a: ModuleEntryIterator, st1: ModuleEntryIterator, fin: ModuleEntryIterator)
+    requires
+        wf(a), expanded(a, st1), loop_inv(*a.graph, opts_of(a), st1, fin),
+        fin.visiting@.len() == 0, fin.previous_module is None,
+    ensures next_rel(a, fin, None),
+{
+    lemma_finish_common(a, st1, fin);
+}
+pub proof fn lemma_finish_some(a: ModuleEntryIterator, st1: ModuleEntryIterator, s0: ModuleEntryIterator, cur: ModuleEntryIterator, fin: ModuleEntryIterator, s: &Url, e: ModuleEntryRef)
+    requires
+        wf(a), expanded(a, st1), loop_inv(*a.graph, opts_of(a), st1, s0), step(*a.graph, opts_of(a), s0, cur, *s),
+        yields(*a.graph, opts_of(a), *s), entry_val(e) == entry_of(*a.graph, *s),
+        same_config(cur, fin), fin.seen == cur.seen, fin.visiting == cur.visiting, fin.previous_module == Some(e),
+    ensures next_rel(a, fin, Some((s, e))), wf(fin),
+{
+    let g = *a.graph;
+    let o = opts_of(a);
+    // treat the yielded specifier like any other step for the set bookkeeping, except clause (D)
+    assert(!done(st1, *s)) by { if done(st1, *s) { assert(done(s0, *s)); } }
+    assert forall|t: Url| seen(fin, t) <==> (seen(st1, t) || exists|q: Url| done(fin, q) && !done(st1, q) && #[trigger] on_pop(g, o, q, t)) by {
+        if seen(cur, t) {
+            if seen(s0, t) {
+                if !seen(st1, t) {
+                    let q = choose|q: Url| done(s0, q) && !done(st1, q) && #[trigger] on_pop(g, o, q, t);
+                    lemma_done_mono(g, o, s0, cur, *s, q);
+                }
+            } else { assert(on_pop(g, o, *s, t)); }
+        }
+        if exists|q: Url| done(fin, q) && !done(st1, q) && #[trigger] on_pop(g, o, q, t) {
+            let q = choose|q: Url| done(fin, q) && !done(st1, q) && #[trigger] on_pop(g, o, q, t);
+            if q != *s { lemma_done_back(g, o, s0, cur, *s, q); }
+        }
+    }
+    assert forall|t: Url| queued(fin, t) implies (queued(st1, t) || (seen(fin, t) && !seen(st1, t))) by {
+        assert(t != *s);
+        if queued(s0, t) { } else { assert(seen(cur, t) && !seen(s0, t)); }
+    }
+    assert forall|t: Url| done(st1, t) implies done(fin, t) by { assert(done(s0, t)); lemma_done_mono(g, o, s0, cur, *s, t); }
+    assert forall|q: Url| done(fin, q) && !done(st1, q) && q != *s implies !#[trigger] yields(g, o, q) by {
+        lemma_done_back(g, o, s0, cur, *s, q);
+    }
+    lemma_finish_glue(a, st1, fin, Some((s, e)));
+}
+proof fn lemma_finish_common(a: ModuleEntryIterator, st1: ModuleEntryIterator, fin: ModuleEntryIterator)
+    requires
+        wf(a), expanded(a, st1), loop_inv(*a.graph, opts_of(a), st1, fin),
+        fin.visiting@.len() == 0, fin.previous_module is None,
+    ensures next_rel(a, fin, None),
+{
+    lemma_finish_glue(a, st1, fin, None);
+}
+/// re-base the bookkeeping from `st1` (after expansion) to `a` (before the call)
+proof fn lemma_finish_glue(a: ModuleEntryIterator, st1: ModuleEntryIterator, fin: ModuleEntryIterator, r: Option<(&Url, ModuleEntryRef)>)
+    requires
+        wf(a), expanded(a, st1), wf(fin), same_config(st1, fin),
+        forall|t: Url| seen(fin, t) <==> (seen(st1, t) || exists|q: Url| done(fin, q) && !done(st1, q) && #[trigger] on_pop(*a.graph, opts_of(a), q, t)),
+        forall|t: Url| queued(fin, t) ==> (queued(st1, t) || (seen(fin, t) && !seen(st1, t))),
+        forall|t: Url| done(st1, t) ==> done(fin, t),
+        forall|q: Url| done(fin, q) && !done(st1, q) && (r is None || *r.unwrap().0 != q) ==> !#[trigger] yields(*a.graph, opts_of(a), q),
+        match r {
+            Some((s, e)) => done(fin, *s) && !done(st1, *s) && yields(*a.graph, opts_of(a), *s) && entry_val(e) == entry_of(*a.graph, *s) && fin.previous_module == Some(e),
+            None => fin.visiting@.len() == 0 && fin.previous_module is None,
+        },
+    ensures next_rel(a, fin, r),
+{
+    let g = *a.graph;
+    let o = opts_of(a);
+    let prev = opt_entry_val(a.previous_module);
+    assert forall|p: Url| (done(fin, p) && !done(a, p)) <==> (done(fin, p) && !done(st1, p)) by { lemma_expanded_done(a, st1, p); }
+    assert forall|t: Url| seen(fin, t) <==> (seen(a, t) || expands_to(o, prev, t) || exists|p: Url| (done(fin, p) && !done(a, p)) && #[trigger] on_pop(g, o, p, t)) by {
+        if exists|q: Url| done(fin, q) && !done(st1, q) && #[trigger] on_pop(g, o, q, t) {
+            let q = choose|q: Url| done(fin, q) && !done(st1, q) && #[trigger] on_pop(g, o, q, t);
+            lemma_expanded_done(a, st1, q);
+        }
+        if exists|p: Url| (done(fin, p) && !done(a, p)) && #[trigger] on_pop(g, o, p, t) {
+            let q = choose|p: Url| (done(fin, p) && !done(a, p)) && #[trigger] on_pop(g, o, p, t);
+            lemma_expanded_done(a, st1, q);
+        }
+    }
+    assert forall|t: Url| queued(fin, t) implies (queued(a, t) || (seen(fin, t) && !seen(a, t))) by { }
+    assert forall|t: Url| done(a, t) implies done(fin, t) by { lemma_expanded_done(a, st1, t); }
+    assert forall|p: Url| (done(fin, p) && !done(a, p)) && (r is None || *r.unwrap().0 != p) implies !#[trigger] yields(g, o, p) by { lemma_expanded_done(a, st1, p); }
+    match r { Some((s, e)) => { lemma_expanded_done(a, st1, *s); }, None => { } }
+}
+
+} // verus!
+verus! {
+/// `next_rel` and `wf` only look at the views of the collections
+pub proof fn lemma_next_rel_views(a: ModuleEntryIterator, x: ModuleEntryIterator, y: ModuleEntryIterator, r: Option<(&Url, ModuleEntryRef)>)
+    requires
+        next_rel(a, x, r), wf(x),
+        x.visiting@ == y.visiting@, x.seen@ == y.seen@, same_config(x, y), x.previous_module == y.previous_module,
+    ensures next_rel(a, y, r), wf(y),
+{
+    assert forall|t: Url| (seen(x, t) <==> seen(y, t)) && (queued(x, t) <==> queued(y, t)) && (done(x, t) <==> done(y, t)) by { }
+    let g = *a.graph;
+    let o = opts_of(a);
+    let prev = opt_entry_val(a.previous_module);
+    assert forall|t: Url| seen(y, t) <==> (seen(a, t) || expands_to(o, prev, t) || exists|p: Url| (done(y, p) && !done(a, p)) && #[trigger] on_pop(g, o, p, t)) by {
+        assert(seen(x, t) <==> (seen(a, t) || expands_to(o, prev, t) || exists|p: Url| (done(x, p) && !done(a, p)) && #[trigger] on_pop(g, o, p, t)));
+        if exists|p: Url| (done(x, p) && !done(a, p)) && #[trigger] on_pop(g, o, p, t) {
+            let p = choose|p: Url| (done(x, p) && !done(a, p)) && #[trigger] on_pop(g, o, p, t);
+            assert(done(y, p));
+        }
+        if exists|p: Url| (done(y, p) && !done(a, p)) && #[trigger] on_pop(g, o, p, t) {
+            let p = choose|p: Url| (done(y, p) && !done(a, p)) && #[trigger] on_pop(g, o, p, t);
+            assert(done(x, p));
+        }
+    }
+}
+} // verus!
